@@ -9,14 +9,15 @@ DRIVER = "driver_lp"
 LEAN_MODULES = ["AllfedModel.Props.C02"]
 OBLIGATIONS = ["Allfed.C02." + n for n in [
     "objective_le_every_month", "consumed_is_percent_of_need", "objective_le_weighted_total", "normalise_eval", "dualBound_sound", "ubOf_valid",
-    "certificate_sound", "sound_humans", "complete_humans", "lp_optimum_is_true_optimum", "lp_bound_iff_true_bound"]]
+    "certificate_sound", "sound_humans", "complete_humans", "lp_optimum_is_true_optimum", "lp_bound_iff_true_bound",
+    "sound_animals", "complete_animals", "feed_optimum_is_true_optimum", "feed_bound_iff_true_bound"]]
 LEVEL_TEXT = ("partial. Lean 4 theorems for all inputs: the set of objective values of the LP the code builds in a human-maximising round IS the set of worst-month percentages "
               "achievable by physically feasible allocations (sound_humans + complete_humans = lp_optimum_is_true_optimum: stocks, cumulative harvest and slaughter, monthly caps, seaweed ledger, "
               "intake caps, the round's charge), so an upper bound of the LP objective is an upper bound of the true optimum (lp_bound_iff_true_bound). Further: the objective of the LP the code builds is sound (at most every month's percent fed, which is what people are really given relative "
               "to need; at most the weighted feed+biofuel total in the feed round), and a certificate checker that turns ANY vector of row multipliers into an upper bound valid for every "
               "feasible point (weak duality with reduced-cost residuals absorbed by proved variable bounds). Per instance the check evaluates that checker in exact rational arithmetic on "
               "the captured instance with HiGHS' duals as multipliers: the value CBC reported must be within 1e-4 (relative) of the certified bound. Optimality of the solver's answer is thus "
-              "certified per instance, not proved once for all; completeness is proved for the human-maximising rounds, for the feed round only soundness.")
+              "certified per instance, not proved once for all; soundness AND completeness are proved for both kinds of round.")
 LEVEL_NOTE = ("Trusted: Lean kernel for the soundness theorems; the Lean compiler for running the checker at Rat (not the kernel); the row-by-row tie of buildLP to PuLP's model (C01). "
               "CBC and HiGHS are untrusted: a wrong dual only weakens the bound. The exact LP uses the exact rational values of the doubles.")
 TECHNIQUE = "Lean 4 proof of a dual-bound certificate checker + per-instance exact certificates from an independent solver's duals"
